@@ -310,6 +310,12 @@ class IsotropicOdeTs0(ssm_impl_api.AbstractOde):
 
         bias = IsotropicNormal.from_dirac(fx, damp=damp)
 
+        # Array-indexing clamps out-of-range indices silently, so check here
+        if max(self.ode.tcoeff_indices_output) >= len(rv.mean):
+            msg = "The ODE's output coefficients exceed the Taylor coefficients"
+            msg += f" in the state: {self.ode.tcoeff_indices_output} vs {len(rv.mean)}."
+            raise IndexError(msg)
+
         def derivative_selector(s):
             return s[np.asarray(self.ode.tcoeff_indices_output)]
 
